@@ -39,6 +39,7 @@ type lockInfo struct {
 	mu      *types.Var
 	expects map[*ssa.Function]int // 1 = all callers hold the lock, 2 = no
 	named   *types.Named
+	ignore  ssa.Instruction // a lock-wrapper call whose own effect is not counted (state before it)
 }
 
 // heldAt: is the mutex of f's receiver held at instruction `at`?
@@ -53,6 +54,12 @@ func (li *lockInfo) heldAtX(f *ssa.Function, at ssa.Instruction, exclusive bool)
 	isLock := func(in ssa.Instruction) bool {
 		if _, isDefer := in.(*ssa.Defer); isDefer {
 			return false
+		}
+		// a private wrapper that returns with the mutex held on every path (`defer s.lock().Unlock()`)
+		if c, isCall := in.(*ssa.Call); isCall && in != li.ignore && !c.Call.IsInvoke() && len(c.Call.Args) > 0 && stripChange(c.Call.Args[0]) == ssa.Value(recv) {
+			if g := staticCallee(&c.Call); g != nil && g != f && li.lockWrapper(g) {
+				return true
+			}
 		}
 		n, base, ok := mutexCall(in, li.mu)
 		return ok && (n == "Lock" || (n == "RLock" && !exclusive)) && stripChange(base) == ssa.Value(recv)
@@ -80,6 +87,39 @@ func (li *lockInfo) heldAtX(f *ssa.Function, at ssa.Instruction, exclusive bool)
 		}
 	})
 	return !bad
+}
+
+// lockWrapper: g is a method on the same type that acquires the receiver's mutex on every path to
+// its returns and never releases it.
+func (li *lockInfo) lockWrapper(g *ssa.Function) bool {
+	if g == nil || g.Blocks == nil || len(g.Params) == 0 || g.Signature.Recv() == nil || namedOf(g.Signature.Recv().Type()) != li.named {
+		return false
+	}
+	recv := g.Params[0]
+	unlocks := false
+	isLock := func(in ssa.Instruction) bool {
+		n, base, ok := mutexCall(in, li.mu)
+		if ok && (n == "Unlock" || n == "RUnlock") {
+			unlocks = true
+		}
+		if _, isDefer := in.(*ssa.Defer); isDefer {
+			return false
+		}
+		return ok && n == "Lock" && stripChange(base) == ssa.Value(recv)
+	}
+	eachInstr(g, func(_ *ssa.BasicBlock, _ int, in ssa.Instruction) { isLock(in) })
+	if unlocks {
+		return false
+	}
+	free, _ := pathExists(g, nil, isReturn, isLock, nil)
+	return !free
+}
+
+// heldBefore: heldAt for the state just before `at` (a lock-wrapper call does not count itself).
+func (li *lockInfo) heldBefore(f *ssa.Function, at ssa.Instruction) bool {
+	li.ignore = at
+	defer func() { li.ignore = nil }()
+	return li.heldAt(f, at)
 }
 
 // callersHold: f is unexported and every static call site of f holds the lock.
@@ -238,7 +278,7 @@ func ruleA15a(r *Run, p *Prog, rule, rel, tname string) {
 					}
 				}
 				if cc := callCommon(in); cc != nil && !cc.IsInvoke() {
-					if sc := staticCallee(cc); sc != nil && acquires[sc] && len(cc.Args) > 0 && stripChange(cc.Args[0]) == ssa.Value(recv) && !li.heldAt(m, in) {
+					if sc := staticCallee(cc); sc != nil && acquires[sc] && len(cc.Args) > 0 && stripChange(cc.Args[0]) == ssa.Value(recv) && !li.heldBefore(m, in) {
 						if !acquires[m] {
 							acquires[m] = true
 							changed = true
@@ -265,7 +305,9 @@ func ruleA15a(r *Run, p *Prog, rule, rel, tname string) {
 			if _, isGo := in.(*ssa.Go); isGo {
 				return
 			}
+			li.ignore = in
 			held := li.heldAt(m, in)
+			li.ignore = nil
 			r.Ob(rule, FnName(m)+"/no-relock:"+sc.Name(), p.Pos(in.Pos()), !held, true, tern(!held, "calls "+sc.Name()+" (which takes "+mu.Name()+") without holding it", FnName(m)+" calls "+FnName(sc)+" on the same receiver while holding "+mu.Name()+", and that method acquires "+mu.Name()+" again: sync.Mutex is not re-entrant, the call never returns (held lines, the trigger line and every later line are lost)"))
 		})
 	}
